@@ -130,6 +130,18 @@ func (c *Case) Exec(t *eng.T) {
 		if oerr == nil {
 			want = "<" + printed(res) + ">"
 		}
+	case "with-sibling":
+		// earlier pairs of the same with tag bind the names the filter arguments use (sep, q, two): the
+		// arguments still mean what they mean in the enclosing scope
+		src = "{% with sep=\"#\" q=\"Q\" two=5 z=" + expr + " %}<{{ z }}>{% endwith %}"
+		if oerr == nil {
+			want = "<" + printed(res) + ">"
+		}
+	case "with-sibling-old":
+		src = "{% with \"#\" as sep \"Q\" as q " + expr + " as z %}<{{ z }}>{% endwith %}"
+		if oerr == nil {
+			want = "<" + printed(res) + ">"
+		}
 	case "set":
 		src = "{% set z = " + expr + " %}<{{ z }}>"
 		if oerr == nil {
@@ -242,7 +254,10 @@ func (c *UnknownCase) ID() string { return c.Stage + ": " + c.Src }
 
 func (c *UnknownCase) Exec(t *eng.T) {
 	t.Nontrivial()
-	out := px.Render(map[string]string{"/inc": "x"}, c.Src, baseCtx())
+	cx := baseCtx()
+	cx["badf"], cx["badt"], cx["badft"] = "badf", "badt", "badft"
+	out := px.Render(map[string]string{"/inc": "x", "/badf": "f{{ s|nosuch }}", "/badt": "t{% nosuchtag %}", "/badft": "{% filter nosuch %}x{% endfilter %}",
+		"/badbase": "B{% block a %}{{ s|nosuch }}{% endblock %}", "/badlib": "{% macro mm() export %}{% nosuchtag %}{% endmacro %}"}, c.Src, cx)
 	t.Outcome(out.Kind())
 	if out.Panic != "" {
 		t.Fail("unknown:panic", "%s panics: %s", c.Src, out.PanicMsg)
@@ -318,7 +333,7 @@ func run(r *eng.Runner) {
 		}
 	}
 	inputs := []string{"s", "l", "n", "e", "missing", `"Lit q"`, "7", "m.k", "fn()", `"12.34"`, "1"}
-	positions := []string{"output", "if", "for", "with", "set", "macro-arg", "macro-default", "filter-tag", "scoped-arg", "subscript", "binds-tighter"}
+	positions := []string{"output", "if", "for", "with", "set", "macro-arg", "macro-default", "filter-tag", "scoped-arg", "subscript", "binds-tighter", "with-sibling", "with-sibling-old"}
 	maxLen := 3
 	if !r.Quick() {
 		maxLen = 4
@@ -377,6 +392,11 @@ func run(r *eng.Runner) {
 		{"{% nosuchtag %}", "compile"}, {"{% if 1 %}{% nosuchtag %}{% endif %}", "compile"}, {"{% if 0 %}{% nosuchtag %}{% endif %}", "compile"},
 		{"{% for x in l %}{% nosuchtag 1 2 %}{% endfor %}", "compile"}, {"{% macro mm() %}{% nosuchtag %}{% endmacro %}", "compile"},
 		{"{% block b %}{% nosuchtag %}{% endblock %}", "compile"}, {"{% spaceless %}{% nosuchtag %}{% endspaceless %}", "compile"},
+		// the unregistered name sits in another file that is pulled in - also with if_exists, which only excuses a MISSING file
+		{`A{% include "badf" %}B`, "any"}, {`A{% include "badt" %}B`, "any"}, {`A{% include "badft" %}B`, "any"},
+		{`A{% include "badf" if_exists %}B`, "any"}, {`A{% include "badt" if_exists %}B`, "any"}, {`A{% include "badft" if_exists %}B`, "any"},
+		{`A{% include badf if_exists %}B`, "any"}, {`A{% include badt if_exists %}B`, "any"}, {`A{% include badft if_exists %}B`, "any"},
+		{`A{% include badf %}B`, "any"}, {`{% extends "badbase" %}`, "any"}, {`{% import "badlib" mm %}`, "any"}, {`{% ssi "badf" parsed %}`, "any"},
 		{"{% endif %}", "compile"}, {"{% else %}", "compile"}, {"{% 1 %}", "compile"}, {"{% %}", "compile"},
 	}
 	for i := range unk {
